@@ -71,6 +71,8 @@ CHECKS = {
         "assumptions": ["interleaving granularity = frontend call-outs"],
         "jobs": [
             {"run": "^TestC04Completion$", "n": {"quick": 8000, "thorough": 40000}},
+            # hundreds of builds in flight at once (sync and background): Gets served stale return at once, no lock remains
+            {"run": "^TestC01ManyKeys$", "name": "C01ManyKeys-for-C04", "n": {"quick": 300, "thorough": 3000}},
         ],
     },
     "C05": {
@@ -89,6 +91,8 @@ CHECKS = {
         "jobs": [
             {"run": "^TestC05Burst$", "n": {"quick": 6000, "thorough": 40000}},
             {"run": "^TestC05Suppression$", "n": {"quick": 6000, "thorough": 40000}},
+            # long histories (tens of thousands of lock releases) while builds are in flight
+            {"run": "^TestC01ManyKeys$", "name": "C01ManyKeys-for-C05", "n": {"quick": 300, "thorough": 3000}},
             {"run": "^TestC01Sweep$", "name": "C01Sweep-for-C05", "n": {"quick": 1, "thorough": 1}, "tiers": ("thorough",),
              "shards": {"quick": 1, "thorough": 16}},
         ],
@@ -110,6 +114,8 @@ CHECKS = {
             {"run": "^TestC06WithTTL$", "n": {"quick": 20000, "thorough": 150000}},
             {"run": "^TestC06Failover$", "n": {"quick": 8000, "thorough": 40000}},
             {"run": "^TestC06SkipReadLone$", "n": {"quick": 3000, "thorough": 20000}},
+            # hundreds of background builds whose callers are cancelled after their Get returned
+            {"run": "^TestC01ManyKeys$", "name": "C01ManyKeys-for-C06", "n": {"quick": 300, "thorough": 3000}},
         ],
     },
     "C07": {
